@@ -60,7 +60,9 @@ type aggSession struct {
 	prop   string
 	keyCat []int
 	keyV6  []bool
-	msgCh  chan *entities.Message
+	// corrListed: the fields named in AggregationInput.CorrelateFields
+	corrListed map[string]bool
+	msgCh      chan *entities.Message
 	// a record that lacked an element was taken in by the process: the model does not say what
 	// the flow looks like then, the session ends there
 	fuzzyAccepted bool
@@ -93,6 +95,20 @@ func newAggSession(env *Env, prop string) (*aggSession, error) {
 		at := (odd - 1) % (len(aggCorrelateBoth) + 1)
 		corr = append(append(append([]string(nil), aggCorrelateBoth[:at]...), []string{"flowStartSeconds", "octetTotalCount"}[odd%2]), aggCorrelateBoth[at:]...)
 		env.Count("probe.correlate_list_with_unsupported_type", 1)
+	}
+	s.corrListed = map[string]bool{}
+	if drop := int(cfgOr(pl, "corr_drop", 0)); drop > 0 {
+		var kept []string
+		for i, name := range aggCorrelateBoth {
+			if drop&(1<<i) == 0 {
+				kept = append(kept, name)
+			}
+		}
+		corr = kept // nil when everything is dropped
+		env.Count("probe.correlate_list_partial_or_empty", 1)
+	}
+	for _, name := range corr {
+		s.corrListed[name] = true
 	}
 	ap, err := intermediate.InitAggregationProcess(intermediate.AggregationInput{
 		MessageChan: s.msgCh, WorkerNum: 2, CorrelateFields: corr, AggregateElements: aggElements(),
@@ -413,8 +429,8 @@ func (s *aggSession) compareFlow(f *aggFlow, get func(string) (string, bool), wh
 				}
 			}
 			got, ok := get(field)
-			if !ok {
-				continue
+			if !ok || !s.corrListed[field] {
+				continue // only the fields the application listed are merged
 			}
 			okv := false
 			for _, a := range acc {
